@@ -123,6 +123,25 @@ class FileUnderTest:
             ch = dclab.new_dataset(ds)
             co = ch[self.feat]
             out["child"] = (co.min(), co.max(), co.mean())
+            # hierarchy refresh: the parent drops its first event; the
+            # summaries of the refreshed child follow its new data
+            out["refresh"] = None
+            if len(ds) >= 2:
+                ds.filter.manual[0] = False
+                ch.rejuvenate()
+                cr = ch[self.feat]
+                vals = np.asarray(cr[:], dtype=float)
+                with np.errstate(all="ignore"):
+                    import warnings
+                    with warnings.catch_warnings():
+                        warnings.simplefilter("ignore")
+                        ref = (np.nanmin(vals), np.nanmax(vals),
+                               np.nanmean(vals)) if np.any(
+                                   ~np.isnan(vals)) else (np.nan,) * 3
+                        got = (cr.min(), cr.max(), cr.mean())
+                out["refresh"] = (got, ref, np.array_equal(
+                    vals, np.asarray(ds[self.feat][:], dtype=float)[1:],
+                    equal_nan=True))
         return out
 
 
@@ -156,6 +175,17 @@ def _replay(job):
                 viol = ("stored values differ after " + st["a"],
                         "step %d: %s vs %s" % (i, obs["data"], want), i)
                 break
+            if obs.get("refresh") is not None:
+                got, ref, same_data = obs["refresh"]
+                okr = same_data and all(
+                    (np.isnan(g) and np.isnan(r)) or abs(float(g) - float(r))
+                    <= 1e-12 * max(1.0, abs(float(r)))
+                    for g, r in zip(got, ref))
+                if not okr:
+                    viol = ("summaries of a refreshed hierarchy child differ "
+                            "from its data", "steps %s: reported %s, data "
+                            "give %s" % (steps, got, ref), i)
+                    break
             for reader in ("hdf5", "child"):
                 mn, mx, me = obs[reader]
                 bad = [nm for nm, o, r in (("min", mn, rec["min"]),
